@@ -3685,7 +3685,7 @@ impl AbiTraitDefinition {
                 &new_method.info.return_value,
                 &old_method.info.return_value,
                 "".into(),
-                is_return_position,
+                true, /* a method's return value is in return position, as in the negotiation done by AbiConnection */
             ) {
                 return Err(format!("In trait {}, method {}, the return value type has changed from version {}: {}. This is not a backward-compatible change.",
                                    self.name, old_method.name, old_version, diff
